@@ -91,6 +91,11 @@ func main() {
 	if _, err := os.Stat(filepath.Join(verifDir, "known_findings.txt")); err != nil {
 		verifDir = "/verif"
 	}
+	loadSeedMutants(verifDir)
+	if id == "seedtable" {
+		seedTable(exe, *repo)
+		return
+	}
 	if *replay != "" {
 		b, err := os.ReadFile(*replay)
 		if err == nil {
